@@ -74,18 +74,23 @@ var (
 	FixedZone     = realtime.FixedZone
 )
 
+//go:norace
 func Now() Time             { return rt.Now() }
+//go:norace
 func Since(t Time) Duration { return rt.Now().Sub(t) }
+//go:norace
 func Until(t Time) Duration { return t.Sub(rt.Now()) }
 
 // Sleep is a yield: the thread becomes runnable again once another thread has taken a step
 // (every Sleep in go-redisemu sits in a retry loop waiting for another thread). Outside the
 // scheduler it advances the virtual clock.
+//go:norace
 func Sleep(d Duration) {
 	if rt.Cur == nil {
 		rt.Advance(d)
 		return
 	}
+	rt.KillIfTornDown()
 	rt.Point(rt.OpYield, nil, nil)
 }
 
@@ -95,17 +100,22 @@ type Timer struct {
 	reset func(d Duration) bool
 }
 
+//go:norace
 func NewTimer(d Duration) *Timer {
 	t := &Timer{C: rt.NewChan[Time](1)}
 	t.stop, t.reset = rt.AddTimer(d, 0, func(now Time) { rt.TrySend(t.C, now) })
 	return t
 }
 
+//go:norace
 func (t *Timer) Stop() bool            { return t.stop() }
+//go:norace
 func (t *Timer) Reset(d Duration) bool { return t.reset(d) }
 
+//go:norace
 func After(d Duration) *rt.Chan[Time] { return NewTimer(d).C }
 
+//go:norace
 func AfterFunc(d Duration, f func()) *Timer {
 	t := &Timer{}
 	t.stop, t.reset = rt.AddTimer(d, 0, func(now Time) { rt.GoNamed("afterfunc", f) })
@@ -117,12 +127,15 @@ type Ticker struct {
 	stop func() bool
 }
 
+//go:norace
 func NewTicker(d Duration) *Ticker {
 	t := &Ticker{C: rt.NewChan[Time](1)}
 	t.stop, _ = rt.AddTimer(d, d, func(now Time) { rt.TrySend(t.C, now) })
 	return t
 }
 
+//go:norace
 func (t *Ticker) Stop() { t.stop() }
 
+//go:norace
 func Tick(d Duration) *rt.Chan[Time] { return NewTicker(d).C }
